@@ -191,6 +191,7 @@ def run(rep: Report) -> None:
     rep.rule("R08.3", "per-query state: no mutable default arguments and no module-level scratch containers in conversions", floor=2)
     rep.rule("R08.4", "determinism: no iteration over sets of identity-hashed objects and no id()-dependent ordering on the "
              "conversion path (id-sorted intern keys excepted)", floor=1)
+    rep.rule("R08.9", "nothing branches on which units have an entry in the defaultdict conversion tables (lookups create entries)", floor=1)
     rep.rule("R08.8", "no function inside a memoised computation turns an environment-dependent exception (RecursionError, MemoryError, a catch-all) into a return value", floor=1)
     rep.rule("R08.7", "no function changes interpreter-global numeric state (decimal context)", floor=1)
     rep.rule("R05.7", "Quantity.in_unit is conversions.convert(self, unit), unchanged, on every path (shared with C05): nothing is set up or torn down around a query", floor=1)
@@ -299,6 +300,34 @@ def run(rep: Report) -> None:
                                  "query until the next declaration", ffi.where(h))
     if n8 == 0:
         rep.ok("R08.8", "memoised functions", note=f"{len(memos)} memos, no environment-dependent exception is turned into a value")
+    # R08.9: the tables are defaultdicts, and the query path reads them by subscript (`_ratios[start].items()`): every unit a
+    # query merely *asks about* gets an (empty) entry.  Which keys the tables have is therefore query history, not declared
+    # equivalences - nothing may branch on it (`x in _ratios`, `len(_ratios)`, iteration over the top-level keys)
+    cmod = prog.module("conversions")
+    ddicts = {n for n in ("_ratios", "_offsets") if any(isinstance(v := getattr(st, "value", None), ast.Call) and ast.unparse(v.func).split(".")[-1] == "defaultdict"
+                                                         for st in cmod.globals_assigned.get(n, []))}
+    n9 = 0
+    for q9, f9 in sorted(prog.functions.items()):
+        if f9.module in SKIP:
+            continue
+        for x in ast.walk(f9.node):
+            hit9 = None
+            if isinstance(x, ast.Compare) and any(isinstance(o, (ast.In, ast.NotIn)) for o in x.ops):
+                for o, cmp_ in zip(x.ops, x.comparators):
+                    if isinstance(o, (ast.In, ast.NotIn)) and ast.unparse(cmp_).split(".")[-1] in ddicts:
+                        hit9 = x
+            if isinstance(x, ast.Call) and isinstance(x.func, ast.Name) and x.func.id in ("len", "list", "sorted", "set", "iter") and x.args \
+                    and ast.unparse(x.args[0]).split(".")[-1] in ddicts:
+                hit9 = x
+            if isinstance(x, (ast.For, ast.comprehension)) and ast.unparse(x.iter).split(".")[-1] in ddicts:
+                hit9 = x.iter
+            if hit9 is not None and ddicts:
+                n9 += 1
+                rep.fail("R08.9", f"{q9}:{ast.unparse(hit9)[:40]}", f"{q9} looks at which units have an entry in a conversion table (`{ast.unparse(hit9)[:50]}`): the tables "
+                         "are defaultdicts that grow an empty entry for every unit a query asks about, so this test answers differently after an unrelated "
+                         "failed query", f9.where(hit9))
+    if n9 == 0:
+        rep.ok("R08.9", "package", note=f"defaultdict tables {sorted(ddicts)}: nothing tests their top-level keys")
     # R08.3
     conv = prog.module("conversions")
     for q, fi in prog.functions.items():
